@@ -402,6 +402,9 @@ func TestHostileReceivePath(t *testing.T) {
 	sub := run.Sub("hostile-receive-path", "one real peer (no network traffic needed) with real silence and notification-log states; its delegate's NotifyMsg and MergeRemoteState are fed, in random order: arbitrary bytes, valid envelopes with unknown state keys, known keys with malformed/truncated payloads, duplicates, full-state messages whose parts are ordered [unknown key, valid part], and valid updates in between, and further states are registered (AddState) while that traffic flows; no panic, no call that never returns; after every delivery the understood states equal the reference (last-writer-wins over the VALID deliveries so far, nothing corrupted), and every valid update delivered in its own message - or after an unknown-key part of a full-state message - is merged; non-trivial = every case; distinct by (seed)", 50)
 	n := run.N(300, 30000)
 	vf.Parallel(t, n, 8, func(t *testing.T, i int) {
+		if run.Violated() {
+			return // blocked receive paths cost 15 s each; two witnesses are enough
+		}
 		r := sub.Rand(i)
 		nd, err := startNode(fmt.Sprintf("h%d", i), nil, time.Hour)
 		if err != nil {
